@@ -1131,8 +1131,15 @@ namespace hgraph
             // Graph shutdown is not a logical key removal and must not
             // publish erases. The terminal output may already have been
             // detached by its owning service or parent graph.
-            remove_all_entries(view, context, storage, nullptr, nullptr,
-                               evaluation_time);
+            // Every live child gets its stop attempt; the first failure is
+            // re-thrown once the map's own state has been reset.
+            FirstExceptionRecorder stop_errors;
+            for (std::size_t slot = 0; slot < storage.entries.slot_capacity(); ++slot)
+            {
+                stop_errors.capture([&] {
+                    remove_entry_at_slot(view, context, storage, nullptr, nullptr, slot, evaluation_time);
+                });
+            }
             storage.unsubscribe_keys_noexcept();
             storage.primed = false;
             storage.refresh_all_bindings = false;
@@ -1142,6 +1149,7 @@ namespace hgraph
             storage.evaluation_slots.clear();
             storage.resume_position_plus_one = 0;
             storage.child_schedule_queue.clear();
+            stop_errors.rethrow_if_any();
         }
 
         void validate_map_node_spec(const NodeTypeMetaData &meta, const MapNodeSpec &spec)
